@@ -66,11 +66,11 @@ CONFIGS = {
 
 
 class FakeResponse:
-    def __init__(self, body):
+    def __init__(self, body, status=200, reason="OK"):
         self.content = body
         self.headers = {"Content-Type": "application/octet-stream"}
-        self.status_code = 200
-        self.reason_phrase = "OK"
+        self.status_code = status
+        self.reason_phrase = reason
 
     def raise_for_status(self):
         return None
@@ -137,6 +137,16 @@ def produce(client_mod, c2, beacon, key, conf_name, kinds, seed):
     if seed % 3 == 0:
         draw = rng.choice([rng.getrandbits(120), rng.getrandbits(112), rng.getrandbits(128) >> 20 << 12])
         random.getrandbits = lambda n: draw if n == 128 else real_getrandbits(n)
+    if seed % 4 == 1:
+        # the client object has served an earlier session (another id, other names) and checked in once; what goes on the wire afterwards
+        # belongs to the session that is running
+        cl.run(cfg, dry_run=True, beacon_id=rng.randrange(0, 2**31, 2), user="earlier", computer="OLDHOST", process="old.exe", internal_ip="10.9.9.9", arch="x86", pid=1111)
+        old0 = client_mod.httpx.request
+        client_mod.httpx.request = lambda *a, **kw: FakeResponse(b"")
+        try:
+            cl.get_task()
+        finally:
+            client_mod.httpx.request = old0
     try:
         cl.run(cfg, dry_run=True, beacon_id=rng.randrange(0, 2**31, 2), user="user", computer="HOST", process="p.exe", internal_ip="10.1.2.3", arch="x64", pid=4242)
     finally:
@@ -171,9 +181,11 @@ def produce(client_mod, c2, beacon, key, conf_name, kinds, seed):
                         body = peer.task_body(_nxt["task"])
                     else:
                         body = b""
+                    # a response is a response whatever its status line says (servers behind a redirector answer 201 / 202 / 206 as well)
+                    st_, rs_ = rng.choice([(200, "OK"), (200, "OK"), (202, "Accepted"), (201, "Created"), (299, "Fine")])  # one-word reasons: the parser takes a status line of three words
                     if _nxt is not None and _nxt["kind"] in ("Rt", "Re"):
-                        peer.wire.append(resp_wire({"status": 200, "reason": b"OK", "headers": [(b"Content-Type", b"application/octet-stream")], "body": body}))
-                    return FakeResponse(body)
+                        peer.wire.append(resp_wire({"status": st_, "reason": rs_.encode(), "headers": [(b"Content-Type", b"application/octet-stream")], "body": body}))
+                    return FakeResponse(body, st_, rs_)
 
                 client_mod.httpx.request = req
                 task = cl.get_task()
